@@ -66,7 +66,7 @@ example : ∃ out, Analysis.compute false 0 []
     (.compound (some [.assign "=" (.id "x") (.binop "+" (.id "y") (.id "x")),
       .ifs (.id "c") (some (.assign "=" (.id "y") (.id "x"))) none])) = .ok out :=
   loopfree_compute_never_raises _ _
-    (by simp [Spec.desugar, Spec.desugarL, Spec.desugarO, Node.rmCast, Spec.atomOf]; rfl)
+    (by simp [Spec.desugar, Spec.desugarL, Spec.desugarO, Node.rmCast, Spec.atomOf, Spec.changesVariable]; rfl)
     (by decide) _ _ _ (by decide)
 
 /-- the corrections never raise when the delta graph satisfies its invariant (always true in
